@@ -313,3 +313,10 @@ mod tests {
         assert_raw_stream::<&mut std::fs::File>();
     }
 }
+
+/// Verification hook: lets a probe stream implement the sealed stream traits
+#[cfg(any(kani, rust_cli_anstyle_verif))]
+#[doc(hidden)]
+pub mod verif {
+    pub use super::private::Sealed;
+}
